@@ -85,7 +85,10 @@ def generate(run_seed, tier):
     if r.random() < 0.5:
         chain.append(["model_vk", r.choice([f for f in vk_f if f != "pickle"])])
     return dict(curve=cname, d=d, chain=chain,
-                hash=r.choice(["sha1", "sha256", "sha512", "synth24"]))
+                hash=r.choice(["sha1", "sha256", "sha512", "synth24"]),
+                # the key is re-loaded with the plain loader call (the hash
+                # function is not part of any serialisation)
+                plain_load=r.random() < 0.3)
 
 
 # one writable buffer that the "application" re-uses for every key it reads
@@ -114,6 +117,13 @@ def execute(prog):
             ID, "curve-table", bad[0].split(":")[0].replace(" ", "_")[:40],
             "library curve constants disagree with the frozen table: "
             + "; ".join(bad[:4]))
+        return out
+    bad = libx.exported_curve_roundtrips()
+    if bad:
+        out["violation"] = core.violation(
+            ID, "exported-curve", bad[0].split(":")[0][:40],
+            "a curve the package exports does not round-trip its keys: "
+            + "; ".join(bad[:3]))
         return out
     mc = mcurves.by_name(prog["curve"])
     curve, toy = libx.run_curve(mc)
@@ -199,10 +209,12 @@ def execute(prog):
                     how = "bytes"       # text / pickle stay plain bytes
                 try:
                     arg = _present(data, how)
+                    lhf = None if (prog.get("plain_load")
+                                   and fmt != "pickle") else hf
                     if private:
-                        new = formats.sk_load(lk, arg, fmt, curve, hf)
+                        new = formats.sk_load(lk, arg, fmt, curve, lhf)
                     else:
-                        new = formats.vk_load(lk, arg, fmt, curve, hf)
+                        new = formats.vk_load(lk, arg, fmt, curve, lhf)
                 except Exception as e:
                     fail("reload", "%s-%s" % (where, type(e).__name__),
                          "loading what was %s raised %r" % (
@@ -223,8 +235,9 @@ def execute(prog):
                     fail("roundtrip", where + "-scalar",
                          "reloaded key has scalar %s" % bytes(
                              nsk.to_string()).hex())
-                if nvk.default_hashfunc is not hf or (
-                        nsk is not None and nsk.default_hashfunc is not hf):
+                if not prog.get("plain_load") and (
+                        nvk.default_hashfunc is not hf or (
+                        nsk is not None and nsk.default_hashfunc is not hf)):
                     fail("roundtrip", where + "-default-hash",
                          "the reloaded key's default hash function is %r, it "
                          "was loaded with %r" % (nvk.default_hashfunc, hf))
